@@ -261,10 +261,14 @@ func (d *dsys) compare(o op, full bool) string {
 				continue
 			}
 			r, wd := shadow.Shown(sc.R)
+			comb := sc.Comb
 			if wd == 2 {
 				covered = true
 				if x == W-1 {
-					continue // wide rune in the last column: not fixed by the statement for this backend
+					// a wide rune in the last column does not fit: a blank is shown instead
+					// (as the terminal and the simulation screen do); a page row holds W cells
+					r, wd, covered = ' ', 1, false
+					comb = nil
 				}
 			}
 			// touched only if changed
@@ -281,7 +285,7 @@ func (d *dsys) compare(o op, full bool) string {
 			if st.IsZero() {
 				st = d.sh.Default
 			}
-			want := string(append([]rune{r}, sc.Comb...))
+			want := string(append([]rune{r}, comb...))
 			if !pc.drawn {
 				if want == " " && sc.S.IsZero() && pg.clears > 0 {
 					continue // a page cleared with the screen's default style shows exactly that
@@ -433,15 +437,17 @@ func inputs() {
 			got := poll(s)
 			r := []rune(k)[0]
 			want := []ri.Ev{{Kind: "key", Key: tcell.KeyRune, Rune: r, Mod: m}}
-			if mi == 4 && ((r >= 'a' && r <= 'z') || r == ' ') {
+			// with Ctrl held - alone or with other modifiers, as a terminal reports Ctrl+Alt+a
+			// as ESC ^A - a letter is its control key
+			if ctrl && ((r >= 'a' && r <= 'z') || r == ' ') {
 				ck := tcell.KeyCtrlA + tcell.Key(r-'a')
 				if r == ' ' {
 					ck = tcell.KeyCtrlSpace
 				}
-				want = []ri.Ev{{Kind: "key", Key: ck, Mod: tcell.ModCtrl}}
+				want = []ri.Ev{{Kind: "key", Key: ck, Mod: m}}
 			}
-			if mi == 4 && r == 'Z' {
-				want = []ri.Ev{{Kind: "key", Key: tcell.KeyCtrlZ, Mod: tcell.ModCtrl}}
+			if ctrl && r == 'Z' {
+				want = []ri.Ev{{Kind: "key", Key: tcell.KeyCtrlZ, Mod: m}}
 			}
 			if !ri.EqEvs(got, want) {
 				w.Violation("wasm-rune-key", fmt.Sprintf("key %q with modifiers %04b delivered %v, want %v", k, mi, got, want), nil)
@@ -828,7 +834,7 @@ func fullQueue() {
 func main() {
 	w = hc.Start("C19")
 	w.R.Rule = "the package is compiled for GOOS=js GOARCH=wasm from the current tree (the check's build step; a compile error is reported with the compiler output); inside the wasm program under Node, with recording stand-ins for tcell.js: BFS (depth 4, thorough 5) over draw histories (wide-rune/combining/control alphabet 4x1, five-style alphabet 2x2 incl. basic, 256-palette and RGB colours, attributes, underline style/colour) comparing the page grid rebuilt from drawCell calls with the shadow model after every Show/Sync and requiring drawn cells to be changed cells; every name of WebKeyNames and six printable keys x 16 modifier combinations, modifier-only keys, both mouse callbacks x 4 button codes x 8 modifier sets x 8 enabled-flag sets, paste and focus callbacks enabled and disabled; all 340 orders of Suspend/Resume/SetSize/Fini up to length 4, each on a fresh screen, a call that returns with the screen lock held being detected by probing the lock (no wall clock); all sequences up to length 4 (5) over EnableMouse(all|buttons)/DisableMouse/EnablePaste/DisablePaste/EnableFocus/Suspend/Resume with key, click, motion, paste and focus callbacks probed after every step (a suspended screen must deliver nothing); with the page script running: after every Show/Sync of the draw histories the grid tcell.js has built (rows, columns, text, colours swapped under reverse, attribute and underline classes, underline colour, blink wrapper) equals what the draw calls since the last clear say, keys/paste (also characters outside the basic plane)/click/mousemove/focus/blur delivered as DOM events to its listeners become the right events, and all sequences up to length 4 of ShowCursor/HideCursor/SetSize/SetContent/Show throw nothing and leave the cursor class on exactly the requested on-screen cell. distinct_nontrivial = input cases + lifecycle sequences + draw states"
-	w.R.Assumptions = []string{"webfiles/tcell.js of the tree under test is executed under Node on a stand-in document object model (elements, classList, style, listeners; no layout engine, no CSS): recording functions sit in front of its drawCell/show/... and pass every call on; if the script cannot be read the recorders alone are the page (noted in the evidence)", "default/reset colours and a wide rune in the last column are not fixed by the statement for this backend and are not compared; the column a wide rune covers must hold no text of its own", "Ctrl-letter mapping follows the backend's documented special case (Ctrl alone + letter => KeyCtrlX)"}
+	w.R.Assumptions = []string{"webfiles/tcell.js of the tree under test is executed under Node on a stand-in document object model (elements, classList, style, listeners; no layout engine, no CSS): recording functions sit in front of its drawCell/show/... and pass every call on; if the script cannot be read the recorders alone are the page (noted in the evidence)", "default/reset colours are not fixed by the statement for this backend and are not compared; a wide rune in the last column is shown as a blank (as on the other screens), the column a wide rune covers holds no text of its own", "with Ctrl held (alone or with other modifiers) a letter is its control key, as a terminal reports it"}
 	install()
 	if ok, why := loadPage(); ok {
 		realPage = true
